@@ -200,6 +200,12 @@ def recipes():
         O.DenseLinearOperator(g.T(*b, 2, 2, 2)), g.I(*b, 2, 2, 1, n=2), g.T(*b, 2, 2, 1), g.I(*b, 2, 2, 1, n=2), g.T(*b, 2, 2, 1)))
     R["Sum(Identity,Dense)"] = lambda g, b: O.SumLinearOperator(O.IdentityLinearOperator(3, batch_shape=torch.Size(b), dtype=g.dt), O.DenseLinearOperator(g.T(*b, 3, 3)))
     R["Sum(Dense,Zero)"] = lambda g, b: O.SumLinearOperator(O.DenseLinearOperator(g.T(*b, 3, 3)), O.ZeroLinearOperator(*b, 3, 3, dtype=g.dt))
+    R["Matmul(Dense,Zero)"] = lambda g, b: O.MatmulLinearOperator(O.DenseLinearOperator(g.T(*b, 3, 3)), O.ZeroLinearOperator(*b, 3, 3, dtype=g.dt))
+    R["BatchRepeat(Zero)"] = lambda g, b: O.BatchRepeatLinearOperator(O.ZeroLinearOperator(*b, 3, 3, dtype=g.dt), batch_repeat=torch.Size((2,) + (1,) * len(b)))
+    R["Interp(Zero)"] = lambda g, b: O.InterpolatedLinearOperator(O.ZeroLinearOperator(*b, 3, 3, dtype=g.dt), g.I(*b, 2, 2), g.T(*b, 2, 2), g.I(*b, 2, 2), g.T(*b, 2, 2))
+    R["Sum(Interp(Zero),Dense,Zero)"] = lambda g, b: O.SumLinearOperator(
+        O.InterpolatedLinearOperator(O.ZeroLinearOperator(*b, 3, 3, dtype=g.dt), g.I(*b, 3, 1), g.T(*b, 3, 1), g.I(*b, 3, 1), g.T(*b, 3, 1)),
+        O.DenseLinearOperator(g.T(*b, 3, 3)), O.ZeroLinearOperator(*b, 3, 3, dtype=g.dt))
     R["Kron(Identity,Dense)"] = lambda g, b: O.KroneckerProductLinearOperator(O.IdentityLinearOperator(2, batch_shape=torch.Size(b), dtype=g.dt), O.DenseLinearOperator(g.T(*b, 2, 2)))
     R["Matmul(Kernel,Diag)"] = lambda g, b: O.MatmulLinearOperator(
         O.KernelLinearOperator(g.T(*b, 3, 2), g.T(*b, 3, 2), covar_func=covar_lin, scale=g.T(*b, 1, 1)), O.DiagLinearOperator(g.T(*b, 3)))
@@ -701,11 +707,6 @@ def run_case(chk, enc, R, case, opnames, lines, expect, overridden):
                                       f"{(v.to(F64) - v0.to(F64)).abs().max().item() if v.shape == v0.shape else 'shape'})", pl)
             # model
             mc = model_cmd(opname)
-            if mc in ("rebuild", "rebuild2") and "ZeroLinearOperator" in enc_s:
-                # ZeroLinearOperator has a private representation tree (rebuilt from sizes/dtype/device, /repo 7504982)
-                # that the Lean model does not mirror: implementation-side checks above still apply.
-                chk.count("zero-rebuild-not-modelled")
-                mc = None
             if mc is not None and not (opname == "evaluate_kernel" and "evaluate_kernel" in overridden.get(cls, [])):
                 if opname == "rebuild2":
                     got = enc.encode(r, {}, [i + 1000 for i in pos_s])
